@@ -140,3 +140,8 @@ var p2NoClose = map[string]string{
 var o1Exceptions = map[string]string{
 	"srv.(*Service).Worker$1/Service.Start": "Service.Worker starts the service if it is not running yet and then waits for it; an ErrServiceAlreadyStarted/ErrServiceReturned answer is expected there and the outcome is taken from waitFor",
 }
+
+// D8: tabled assignments of an owner's node pointer.
+var d8Exceptions = map[string]string{
+	"dt.(*Stack).Pop/s.head=&Item[T]{}": "Pop on a never-initialised stack installs an empty sentinel so that callers get a non-nil, not-Ok item (pinned by the tests); the next Push re-initialises the stack",
+}
